@@ -7,8 +7,8 @@
    change.ChangeContents.do; change._ResourceOperations.write_file). *)
 From Coq Require Import List NArith Bool.
 From RopeVerif.Lib Require Import Text.
-From RopeVerif.C16 Require Import Newlines Codec Cookie FileModel
-  NewlinesProofs CodecProofs CookieProofs FileModelProofs.
+From RopeVerif.C16 Require Import Newlines Codec Cookie FileModel Session
+  NewlinesProofs CodecProofs CookieProofs FileModelProofs SessionProofs.
 Import ListNotations.
 Local Open Scope N_scope.
 
@@ -160,6 +160,47 @@ Theorem C16_cookie_behind_header :
 Proof. exact cookie_behind_header. Qed.
 Print Assumptions C16_cookie_behind_header.
 
+(* ---- sessions ------------------------------------------------------------------------------------------- *)
+(* One live project, one caller's File object plus the objects held by the history: any sequence of read,
+   File.write, ChangeContents on the same or a fresh File object, undo, redo, close/reopen, and external rewrites
+   that keep codec / convention / declaration.  [session_inv]: the bytes on disk are a good text (CR-free, has a
+   line break, same declaration, encodable) in the file's codec and convention, every File object's newlines is
+   None or the file's convention, every history entry holds good texts.  With automatic_soa on or off. *)
+Theorem C16_session_step :
+  forall (lookup : text -> option codec) (soa : bool) (c : codec) (n : nl) (ck : option text),
+    codec_ok c -> codec_declared lookup c ck ->
+    forall (s : sess) (st : step),
+      session_inv c n ck s -> step_good c n ck st ->
+      session_inv c n ck (fst (run_step repaired lookup soa s st))
+      /\ step_bytes c n s st (s_disk (fst (run_step repaired lookup soa s st))).
+Proof. exact session_step. Qed.
+Print Assumptions C16_session_step.
+
+Theorem C16_session_preserves :
+  forall (lookup : text -> option codec) (soa : bool) (c : codec) (n : nl) (ck : option text),
+    codec_ok c -> codec_declared lookup c ck ->
+    forall (steps : list step) (s : sess),
+      session_inv c n ck s -> Forall (step_good c n ck) steps ->
+      session_inv c n ck (run_steps repaired lookup soa s steps).
+Proof. exact session_preserves. Qed.
+Print Assumptions C16_session_preserves.
+
+(* a file inside the property, freshly opened, satisfies the invariant *)
+Theorem C16_session_initial :
+  forall (c : codec) (n : nl) (ck : option text) (T : text) (d : list N),
+    good c n ck T -> file_of c n T = Some d -> session_inv c n ck (initial d).
+Proof. exact initial_inv. Qed.
+Print Assumptions C16_session_initial.
+
+Example C16_ex_session_hyps :
+  codec_declared std_lookup latin1 (Some latin_1_name)
+  /\ good latin1 NlCRLF (Some latin_1_name) ex_text
+  /\ file_of latin1 NlCRLF ex_text = Some ex_text_raw
+  /\ Forall (step_good latin1 NlCRLF (Some latin_1_name)) ex_session_steps
+  /\ s_disk (run_steps repaired std_lookup true (initial ex_text_raw) ex_session_steps) = ex_text_raw ++ [13; 10].
+Proof. exact ex_session_hyps. Qed.
+Print Assumptions C16_ex_session_hyps.
+
 (* Closed instances: UTF-8 / Latin-1 / ASCII as implemented here, every other name unknown. *)
 Theorem C16_bytes_roundtrip_std :
   forall (c : codec) (t : text) (n : nl) (b : list N),
@@ -260,3 +301,15 @@ Example C16_cr_only_declaration_fixed :
      = WBytes (refute_cr_file ++ [121; 13]).
 Proof. exact cr_only_declaration_fixed. Qed.
 Print Assumptions C16_cr_only_declaration_fixed.
+
+(* OPEN FINDING C16-oneline-resets-newlines (code in /repo now): Python file, automatic_soa on: an edit that leaves
+   the CRLF file without line break, then undo: the bytes are not restored (LF line ends); with the observer off
+   they are.  The text written has no line break: exactly what [good] excludes in C16_session_preserves. *)
+Theorem C16_oneline_resets_newlines_refuted :
+  exists b t,
+    consistentb NlCRLF b = true /\ has_lf t = false
+    /\ s_disk (run_steps repaired std_lookup true (initial b) [SWrite t; SUndo]) <> b
+    /\ has_cr (s_disk (run_steps repaired std_lookup true (initial b) [SWrite t; SUndo])) = false
+    /\ s_disk (run_steps repaired std_lookup false (initial b) [SWrite t; SUndo]) = b.
+Proof. exact oneline_resets_newlines_refuted. Qed.
+Print Assumptions C16_oneline_resets_newlines_refuted.
